@@ -185,7 +185,7 @@ Inductive round_case (t' : table) : Prop :=
     let tl := match bound_ip (r_t r) (rc_duid m) t with Some _ => of_t f | None => (of_t f - probe_cost (r_arp r) (d_chaddr m) y)%Z end in
     msg_kind c m o = KDiscover -> dst = bcast_ip -> o_sid o = None ->
     r_outs r = [f] -> observed_yiaddr f = Some y -> frame_eqb f (reply_lease c gf_dhcpmsg_MsgTypeOffer m y) = true ->
-    (r_t r <= of_t f)%Z -> (ts = r_t r \/ ts = (r_t r + 50000000)%Z) ->
+    (r_t r <= of_t f)%Z -> (of_t f <= reply_deadline c r)%Z -> (ts = r_t r \/ ts = (r_t r + 50000000)%Z) -> (ts <= of_t f)%Z ->
     offer_valid (c_db c) t ts (o_reqip o) (rc_duid m) (probe_free (r_arp r) (d_chaddr m)) (Some (y, tl)) = true ->
     t_hold_client (c_db c) (of_t f) (Some y) (rc_duid m) hold_ns t = (true, t') -> round_case t'
 | RC_request_silent src dst m : decode_chain (r_pkt r) = Some (src, dst, m) ->
@@ -198,21 +198,21 @@ Inductive round_case (t' : table) : Prop :=
     let o := decode_options (d_options m) in
     msg_kind c m o = KRequest -> classify_request c dst src o = Some desired -> in_managed_range (c_db c) (Some desired) = true ->
     bound_ip (r_t r) (rc_duid m) t <> Some desired ->
-    r_outs r = [f] -> frame_eqb f (reply_nak c m) = true -> (r_t r <= of_t f)%Z -> t' = t -> round_case t'
+    r_outs r = [f] -> frame_eqb f (reply_nak c m) = true -> (r_t r <= of_t f)%Z -> (of_t f <= reply_deadline c r)%Z -> t' = t -> round_case t'
 | RC_nak_conflict src dst m desired f : decode_chain (r_pkt r) = Some (src, dst, m) ->
     let o := decode_options (d_options m) in
     msg_kind c m o = KRequest -> classify_request c dst src o = Some desired -> in_managed_range (c_db c) (Some desired) = true ->
     bound_ip (r_t r) (rc_duid m) t = Some desired ->
     t_hold_client (c_db c) (r_t r) (Some desired) (rc_duid m) req_hold_ns t = (true, t') ->
     probe_free (r_arp r) (d_chaddr m) desired = false ->
-    r_outs r = [f] -> frame_eqb f (reply_nak c m) = true -> (r_t r <= of_t f)%Z -> round_case t'
+    r_outs r = [f] -> frame_eqb f (reply_nak c m) = true -> (r_t r <= of_t f)%Z -> (of_t f <= reply_deadline c r)%Z -> round_case t'
 | RC_ack src dst m desired f t1 : decode_chain (r_pkt r) = Some (src, dst, m) ->
     let o := decode_options (d_options m) in
     msg_kind c m o = KRequest -> classify_request c dst src o = Some desired -> in_managed_range (c_db c) (Some desired) = true ->
     bound_ip (r_t r) (rc_duid m) t = Some desired ->
     t_hold_client (c_db c) (r_t r) (Some desired) (rc_duid m) req_hold_ns t = (true, t1) ->
     probe_free (r_arp r) (d_chaddr m) desired = true ->
-    r_outs r = [f] -> frame_eqb f (reply_lease c gf_dhcpmsg_MsgTypeAck m desired) = true -> (r_t r <= of_t f)%Z ->
+    r_outs r = [f] -> frame_eqb f (reply_lease c gf_dhcpmsg_MsgTypeAck m desired) = true -> (r_t r <= of_t f)%Z -> (of_t f <= reply_deadline c r)%Z ->
     t_update_client (c_db c) (of_t f) (Some desired) (rc_duid m) (c_lease c) t1 = (true, t') -> round_case t'.
 
 Lemma accepted_round_cases t' : accept_round c t r = RAcc t' ->
@@ -246,12 +246,13 @@ Proof.
         -- eapply (RC_discover_nothing _ src dst m (r_t r + 50000000)%Z); eauto.
       * destruct (observed_yiaddr f) as [y|] eqn:Ey; [|discriminate].
         destruct (frame_eqb f (reply_lease c gf_dhcpmsg_MsgTypeOffer m y)) eqn:Efr; cbn [negb] in Eres; [|discriminate].
-        destruct (of_t f <? r_t r)%Z eqn:Et; [discriminate|].
+        destruct ((of_t f <? r_t r)%Z || (reply_deadline c r <? of_t f)%Z) eqn:Et; [discriminate|]. apply orb_false_iff in Et as [Et Edl].
         match type of Eres with (if ?A || ?B then _ else _) = _ => destruct A eqn:E1; [|destruct B eqn:E2] end; cbn [orb] in Eres; try discriminate.
         -- destruct (t_hold_client (c_db c) (of_t f) (Some y) (rc_duid m) hold_ns t) as [ok th] eqn:Eh. cbv beta iota in Eres. destruct ok; [|discriminate].
-           injection Eres as <-. eapply (RC_offer _ src dst m (r_t r) y f); eauto. lia.
-        -- destruct (t_hold_client (c_db c) (of_t f) (Some y) (rc_duid m) hold_ns t) as [ok th] eqn:Eh. cbv beta iota in Eres. destruct ok; [|discriminate].
-           injection Eres as <-. eapply (RC_offer _ src dst m (r_t r + 50000000)%Z y f); eauto. lia.
+           injection Eres as <-. eapply (RC_offer _ src dst m (r_t r) y f); eauto; lia.
+        -- apply andb_true_iff in E2 as [E2a E2b].
+           destruct (t_hold_client (c_db c) (of_t f) (Some y) (rc_duid m) hold_ns t) as [ok th] eqn:Eh. cbv beta iota in Eres. destruct ok; [|discriminate].
+           injection Eres as <-. eapply (RC_offer _ src dst m (r_t r + 50000000)%Z y f); eauto; lia.
   - (* REQUEST *)
     unfold accept_request in Eres. fold o in Eres. change (get_duid c (d_chaddr m) (o_cid o)) with (rc_duid m) in Eres.
     destruct (classify_request c dst src o) as [desired|] eqn:Ecl.
@@ -259,16 +260,16 @@ Proof.
     destruct (in_managed_range (c_db c) (Some desired)) eqn:Emr; cbn [negb] in Eres.
     2:{ destruct (r_outs r) eqn:Eo; [|discriminate]. injection Eres as <-. eapply RC_request_silent; eauto. }
     assert (Hnak : forall tt, match r_outs r with
-                              | [f] => if frame_eqb f (reply_nak c m) && (r_t r <=? of_t f)%Z then RAcc tt else RRej 21
+                              | [f] => if frame_eqb f (reply_nak c m) && (r_t r <=? of_t f)%Z && (of_t f <=? reply_deadline c r)%Z then RAcc tt else RRej 21
                               | _ => RRej 22 end = RAcc t0 ->
-                   exists f, r_outs r = [f] /\ frame_eqb f (reply_nak c m) = true /\ (r_t r <= of_t f)%Z /\ t0 = tt).
+                   exists f, r_outs r = [f] /\ frame_eqb f (reply_nak c m) = true /\ (r_t r <= of_t f)%Z /\ (of_t f <= reply_deadline c r)%Z /\ t0 = tt).
     { intros tt H. destruct (r_outs r) as [|f [|? ?]]; try discriminate.
-      destruct (frame_eqb f (reply_nak c m) && (r_t r <=? of_t f)%Z) eqn:E; [|discriminate]. injection H as <-.
-      apply andb_true_iff in E as [E1 E2]. exists f. repeat split; auto. lia. }
+      destruct (frame_eqb f (reply_nak c m) && (r_t r <=? of_t f)%Z && (of_t f <=? reply_deadline c r)%Z) eqn:E; [|discriminate]. injection H as <-.
+      apply andb_true_iff in E as [E12 E3]. apply andb_true_iff in E12 as [E1 E2]. exists f. repeat split; auto; lia. }
     destruct (bound_ip (r_t r) (rc_duid m) t) as [lease|] eqn:Eb.
-    2:{ destruct (Hnak _ Eres) as (f & Ho & Hf & Ht & ->). eapply RC_nak; eauto. fold o. rewrite Eb. discriminate. }
+    2:{ destruct (Hnak _ Eres) as (f & Ho & Hf & Ht & Hdl & ->). eapply RC_nak; eauto. fold o. rewrite Eb. discriminate. }
     destruct (lease =? desired) eqn:El; cbn [negb] in Eres.
-    2:{ destruct (Hnak _ Eres) as (f & Ho & Hf & Ht & ->). eapply RC_nak; eauto. fold o. rewrite Eb. intros H. injection H as ->. rewrite N.eqb_refl in El. discriminate. }
+    2:{ destruct (Hnak _ Eres) as (f & Ho & Hf & Ht & Hdl & ->). eapply RC_nak; eauto. fold o. rewrite Eb. intros H. injection H as ->. rewrite N.eqb_refl in El. discriminate. }
     apply N.eqb_eq in El. subst lease.
     destruct (t_hold_client (c_db c) (r_t r) (Some desired) (rc_duid m) req_hold_ns t) as [okh t1] eqn:Eh. cbv beta iota in Eres.
     destruct okh; cbn [negb] in Eres; [|discriminate].
@@ -277,12 +278,12 @@ Proof.
     destruct free; cbn [negb] in Eres.
     + destruct (r_outs r) as [|f [|? ?]] eqn:Eo; try discriminate.
       destruct (frame_eqb f (reply_lease c gf_dhcpmsg_MsgTypeAck m desired)) eqn:Efr; cbn [negb] in Eres; [|discriminate].
-      destruct (of_t f <? r_t r)%Z eqn:Et; [discriminate|].
+      destruct ((of_t f <? r_t r)%Z || (reply_deadline c r <? of_t f)%Z) eqn:Et; [discriminate|]. apply orb_false_iff in Et as [Et Edl].
       destruct (t_update_client (c_db c) (of_t f) (Some desired) (rc_duid m) (c_lease c) t1) as [ok t2] eqn:Eu. cbv beta iota in Eres.
-      destruct ok; [|discriminate]. injection Eres as <-. eapply RC_ack; eauto. lia.
+      destruct ok; [|discriminate]. injection Eres as <-. eapply RC_ack; eauto; lia.
     + destruct (r_outs r) as [|f [|? ?]] eqn:Eo; try discriminate.
-      destruct (frame_eqb f (reply_nak c m) && (r_t r <=? of_t f)%Z) eqn:E; [|discriminate]. injection Eres as <-.
-      apply andb_true_iff in E as [E1 E2]. eapply RC_nak_conflict; eauto. lia.
+      destruct (frame_eqb f (reply_nak c m) && (r_t r <=? of_t f)%Z && (of_t f <=? reply_deadline c r)%Z) eqn:E; [|discriminate]. injection Eres as <-.
+      apply andb_true_iff in E as [E12 E3]. apply andb_true_iff in E12 as [E1 E2]. eapply RC_nak_conflict; eauto; lia.
   - (* ignored *)
     destruct (r_outs r) eqn:Eo; [|discriminate]. injection Eres as <-. eapply RC_ignored; eauto.
 Qed.
@@ -365,9 +366,9 @@ Theorem accepted_round_c06 c t r t' : cfg_wire_ok c -> wf_bytes (r_pkt r) = true
 Proof.
   intros Hc Hw Ha. destruct (accepted_round_cases c t r t' Ha) as [Hcase _].
   assert (Hsilent : r_outs r = [] -> c06_round c r = true) by (intros H; unfold c06_round; rewrite H; reflexivity).
-  destruct Hcase as [? Ho ?|? ? ? ? ? Ho ?|? ? ? ? ? ? Ho ?|? ? ? ? ? o ? ? ? ? ? Ho ?|src dst m ts y f Hdc o tl Hk Hd Hs Ho Hy Hfr Ht Hts Hov Hh
-                    |? ? ? ? o ? ? Ho ?|src dst m desired f Hdc o Hk Hcl Hmr Hb Ho Hfr Ht ?
-                    |src dst m desired f Hdc o Hk Hcl Hmr Hb Hh Hp Ho Hfr Ht|src dst m desired f t1 Hdc o Hk Hcl Hmr Hb Hh Hp Ho Hfr Ht Hu]; auto.
+  destruct Hcase as [? Ho ?|? ? ? ? ? Ho ?|? ? ? ? ? ? Ho ?|? ? ? ? ? o ? ? ? ? ? Ho ?|src dst m ts y f Hdc o tl Hk Hd Hs Ho Hy Hfr Ht Hdl Hts Hle Hov Hh
+                    |? ? ? ? o ? ? Ho ?|src dst m desired f Hdc o Hk Hcl Hmr Hb Ho Hfr Ht Hdl ?
+                    |src dst m desired f Hdc o Hk Hcl Hmr Hb Hh Hp Ho Hfr Ht Hdl|src dst m desired f t1 Hdc o Hk Hcl Hmr Hb Hh Hp Ho Hfr Ht Hdl Hu]; auto.
   - destruct (hold_ok_in_range _ _ _ _ _ _ _ Hh) as [n Hn]. destruct (to_uip_bound _ _ _ Hn) as [_ Hb].
     destruct Hc as (Hc1 & Hc2 & Hc3 & Hc4). eapply (c06_lease_frame c (r_pkt r) src dst m f 2 y); eauto; [repeat split; auto|lia].
   - eapply c06_nak_frame; eauto.
